@@ -3,6 +3,7 @@
 undone straight afterwards); updates meta.json['recheck'] and prints one line per mutant. /repo must be clean."""
 import json, os, subprocess, sys, glob
 VERIF = os.path.dirname(os.path.dirname(os.path.abspath(__file__)))
+REPO = os.environ.get("VERIF_REPO", "/repo")      # a scratch worktree / snapshot may be used instead of /repo (bin/check honours it too)
 def sh(cmd, cwd=None, timeout=3000):
     p = subprocess.run(cmd, shell=True, cwd=cwd, stdout=subprocess.PIPE, stderr=subprocess.STDOUT, text=True, timeout=timeout)
     return p.returncode, p.stdout
@@ -11,19 +12,19 @@ bad = 0
 for sid in ids:
     d = os.path.join(VERIF, "seeded", sid)
     prop = sid.split("-")[0]
-    rc, out = sh("git -C /repo status --porcelain")
+    rc, out = sh("git -C %s status --porcelain" % REPO)
     if out.strip():
-        print("refusing: /repo is not clean"); sys.exit(2)
-    rc, out = sh("git -C /repo apply %s/patch.diff" % d)
+        print("refusing: %s is not clean" % REPO); sys.exit(2)
+    rc, out = sh("git -C %s apply %s/patch.diff" % (REPO, d))
     if rc != 0:
-        rc, out = sh("git -C /repo apply --3way %s/patch.diff" % d)
+        rc, out = sh("git -C %s apply --3way %s/patch.diff" % (REPO, d))
     try:
         if rc != 0:
             crc, cout = 98, "patch does not apply: " + out[-200:]
         else:
             crc, cout = sh("bin/check %s --tier quick" % prop, cwd=VERIF)
     finally:
-        sh("git -C /repo checkout -- . ; git -C /repo reset -q")
+        sh("git -C %s checkout -- . ; git -C %s reset -q" % (REPO, REPO))
     det = crc == 1 and ("VIOLATION property=%s" % prop) in cout
     m = json.load(open(os.path.join(d, "meta.json")))
     m["recheck"] = {"check_rc": crc, "detected": det}
